@@ -974,7 +974,7 @@ func (s *sf) stmts(list []ast.Stmt, k func() string) string {
 					}
 					val = nilOf(typ)
 				}
-				s.t.env[id.Name] = typ
+				s.t.bind(id.Name, typ, id.Pos())
 				s.written(cname(id.Name))
 				if i >= len(vs.Values) && (typ.k == "list" || typ.k == "bytes") {
 					s.knownNil[id.Name] = true
@@ -1055,7 +1055,7 @@ func (s *sf) ifStmt(st *ast.IfStmt, list []ast.Stmt, k func() string) string {
 			vars = append(vars, v)
 		}
 	}
-	sort.Strings(vars)
+	s.t.sortDecl(vars)
 	if len(vars) == 0 {
 		return s.stmts(list[1:], k)
 	}
@@ -1293,7 +1293,7 @@ func (s *sf) lookupOrCreate(list []ast.Stmt, k func() string) string {
 	s.useMapOp("map_set", mt, st)
 	cv := cname(vid.Name)
 	out := "let '(" + cv + ", " + ms + ") := match map_get " + ms + " " + ks + " with Some found_ => (found_, " + ms + ") | None => let " + cv + " := " + newS + " in (" + cv + ", map_set " + ms + " " + ks + " " + cv + ") end in\n  "
-	s.t.env[vid.Name] = newT
+	s.t.bind(vid.Name, newT, vid.Pos())
 	s.written(cv)
 	s.written(ms)
 	s.alias[vid.Name] = aliasInfo{mvar: ms, key: ks, deps: s.deps(ix.Index)}
@@ -1307,7 +1307,7 @@ func (s *sf) envVars() []string {
 			out = append(out, v)
 		}
 	}
-	sort.Strings(out)
+	s.t.sortDecl(out)
 	return out
 }
 
@@ -1371,7 +1371,7 @@ func (s *sf) rangeStmt(st *ast.RangeStmt, list []ast.Stmt, k func() string) stri
 	savedFacts := s.facts
 	s.facts = nil
 	if elem != "_" {
-		s.t.env[elem] = et
+		s.t.bind(elem, et, st.Value.Pos())
 	}
 	s.depth++
 	body := s.stmts(st.Body.List, func() string { return call("rest_") })
@@ -1544,7 +1544,7 @@ func (p *pkg) statefulFunction(key string) string {
 			for _, id := range fl.Names {
 				typ := s.gotype(fl.Type)
 				name := s.recv + "_" + id.Name
-				t.env[name] = typ
+				t.bind(name, typ, token.NoPos) // the receiver's fields: declaration order of the struct
 				info.fields = append(info.fields, sfield{id.Name, typ})
 				params = append(params, fmt.Sprintf("(%s : %s)", name, typ.coq()))
 			}
@@ -1560,7 +1560,7 @@ func (p *pkg) statefulFunction(key string) string {
 			if _, clash := t.env[id.Name]; clash {
 				s.fail(d, "parameter %s clashes with a receiver field variable", id.Name)
 			}
-			t.env[id.Name] = typ
+			t.bind(id.Name, typ, id.Pos())
 			info.params = append(info.params, typ)
 			params = append(params, fmt.Sprintf("(%s : %s)", cname(id.Name), typ.coq()))
 		}
@@ -1586,7 +1586,7 @@ func (p *pkg) statefulFunction(key string) string {
 			}
 			for _, id := range f.Names {
 				s.named = append(s.named, id.Name)
-				t.env[id.Name] = typ
+				t.bind(id.Name, typ, id.Pos())
 				pre += "let " + cname(id.Name) + " := " + nilOf(typ) + " in\n  "
 			}
 		}
